@@ -37,6 +37,9 @@ def main():
     ap.add_argument('--tier', default='quick')
     ap.add_argument('--skip-tests', action='store_true')
     ap.add_argument('--jobs', default='8')
+    ap.add_argument('--rerun', action='store_true',
+                    help='take patch/demo/meta from /verif/seeded/CNN_LABEL '
+                         '(re-run checks against a stored change)')
     a = ap.parse_args()
     src = f'/tmp/seed/{a.pid}'
     name = f'{a.pid}_{a.label}'
@@ -44,10 +47,16 @@ def main():
     os.makedirs(out, exist_ok=True)
     patch = f'{src}/patch_{a.label}.diff'
     demo = f'{src}/demo_{a.label}.py'
-    shutil.copy(patch, f'{out}/patch.diff')
-    shutil.copy(demo, f'{out}/demo.py')
     meta = {}
-    if os.path.exists(f'{src}/meta_{a.label}.json'):
+    if a.rerun:
+        patch, demo = f'{out}/patch.diff', f'{out}/demo.py'
+        if os.path.exists(f'{out}/meta.json'):
+            meta = json.load(open(f'{out}/meta.json'))
+            meta['commands_run'] = meta.get('agent_report')
+    else:
+        shutil.copy(patch, f'{out}/patch.diff')
+        shutil.copy(demo, f'{out}/demo.py')
+    if not a.rerun and os.path.exists(f'{src}/meta_{a.label}.json'):
         try:
             meta = json.load(open(f'{src}/meta_{a.label}.json'))
         except Exception as e:  # noqa
